@@ -154,7 +154,8 @@ def main():
         # a partial re-run (after a check changed): its rows replace the rows of the same changes in the stored table
         old = json.load(open(path))["results"]
         new = {r["id"]: r for r in results}
-        results = [new.pop(r["id"], r) for r in old] + list(new.values())
+        current = {it["id"] for it in collect(None)}  # rows of changes that no longer exist (moved / renamed) are dropped
+        results = [new.pop(r["id"], r) for r in old if r["id"] in current] + list(new.values())
     json.dump(dict(tier=a.tier, results=results), open(path, "w"), indent=1)
     with open(os.path.join(V, "selftest", "RESULTS.md"), "w") as f:
         f.write(f"# Self-test results (tier {a.tier})\n\nEach breaking change is applied to a scratch worktree; `tests` = the 75 stable tests still pass there; "
